@@ -228,5 +228,24 @@ def rule_level_sync(ctx):
                 else:
                     R.fail(iid, where(f, s_.line), Finding(R.rule, f["file"], q, "initFromNode(%s)" % var,
                            "the walk unpacks `%s` as the node of the current level without comparing its level with the counter: when the index set skips a level (a variable with a single value) every lookup goes out of step and fails" % var, s_.line))
-    R.require_floor(2, "index-lookup walks")
+            # the empty set has no member with any index: from the edge on which the handle is the empty terminal, only `return false` is reachable
+            R.paths += 1
+            var = [a for a in sinks[0].ev["args"] if a.isidentifier()][-1]
+            empt = [b for b in g.nodes if b.kind == "branch" and b.cond and len(b.succ) == 2 and
+                    re.sub(r"\s+", "", b.cond["text"]).lstrip("!") in ("OMEGA_INFINITY==%s" % var, "%s==OMEGA_INFINITY" % var, "0==%s" % var, "%s==0" % var)]
+            iid = "%s: the empty index set answers every lookup with false" % q.replace(M, "")
+            if not empt:
+                raise AnalysisBroken("guard.level-sync: %s has no test of `%s` against the empty terminal (OMEGA_INFINITY)" % (q, var))
+            bad = None
+            for b in empt:
+                te = 1 if b.cond.get("neg") else 0
+                st = [x for x, i in b.succ if i == te][0]
+                yes = lambda n: n.kind == "ret" and re.sub(r"\s+", "", n.ev.get("text", "")) not in ("false", "0")
+                if yes(g.nodes[st]) or g.path(st, yes) is not None:
+                    bad = b
+            if bad is None:
+                R.ok(iid, where(f, empt[0].line))
+            else:
+                R.fail(iid, where(f, bad.line), Finding(R.rule, f["file"], q, "empty-set", "after `%s` (the set is empty) the lookup can still return something other than false: index 0 of the empty set is reported as found" % bad.cond["text"], bad.line))
+    R.require_floor(4, "index-lookup walks")
     return R
